@@ -467,6 +467,18 @@ pub fn f64_fixed<const N: usize>(mul: usize) -> [f64; N] {
     x
 }
 
+/// f64 data with fixed values and a *concrete* NaN mask (bit i of `mask` set = element i is NaN): every float
+/// operation of the regression kernels then constant-folds during symbolic execution; harnesses enumerate the masks.
+pub fn f64_masked<const N: usize>(mul: usize, mask: usize) -> [f64; N] {
+    let mut x = [0.0; N];
+    let mut i = 0;
+    while i < N {
+        x[i] = if (mask >> i) & 1 == 1 { f64::NAN } else { (i * mul + 1) as f64 };
+        i += 1;
+    }
+    x
+}
+
 pub fn cmp_all<V: Vec1View<Option<i32>>, const N: usize>(v: &V, wlo: usize) {
     let (w, mp) = (any_window::<N>(wlo), any_mp::<N>());
     k_vmin::<V, N>(v, w, mp);
